@@ -61,7 +61,48 @@ fn mask_of(e: &Exp) -> Exp {
 pub struct Judge<'a> {
     pub rep: &'a mut Report,
     pub mode: Mode,
+    /// set while a cell is replayed in another unit of measurement (Laws1.tla / Laws2.tla)
+    pub unit: Option<Unit>,
 }
+
+/// The degree table TLC emits from Laws1.tla (`op = laws1`).
+pub struct Laws1 {
+    pub deg: BTreeMap<String, i32>,
+    pub safe: BTreeMap<String, bool>,
+}
+impl Laws1 {
+    pub fn load(path: &str) -> Laws1 {
+        for v in read_ndjson(path) {
+            if get_str(&v, "op") == "laws1" {
+                let deg = v["deg"].as_object().unwrap_or_else(|| tool_error("laws1 without deg"));
+                let safe = v["safe"].as_object().unwrap_or_else(|| tool_error("laws1 without safe"));
+                return Laws1 {
+                    deg: deg.iter().map(|(k, d)| (k.clone(), d.as_i64().unwrap() as i32)).collect(),
+                    safe: safe.iter().map(|(k, d)| (k.clone(), d.as_bool().unwrap())).collect(),
+                };
+            }
+        }
+        tool_error(&format!("no laws1 record in {path}"))
+    }
+    /// the unit change for kernel k of a series whose largest magnitude is `maxabs`, or None if
+    /// the kernel is not replayed in other units
+    pub fn unit(&self, k: &str, u: f64, maxabs: i64) -> Option<Unit> {
+        if !*self.safe.get(k)? {
+            return None;
+        }
+        let d = *self.deg.get(k)?;
+        let factor = u.powi(d);
+        Some(Unit { factor, floor: factor * (maxabs.max(1) as f64).powi(d) })
+    }
+}
+
+/// units the one-series kernels are replayed in, per input element type
+pub const U_F64_BIG: f64 = 123467.8;
+pub const U_F64_SMALL: f64 = 1.3e-4;
+pub const U_F32_BIG: f64 = 1234.5;
+pub const U_F32_SMALL: f64 = 3.0 / 1024.0;
+pub const U_I32_BIG: f64 = 400_000_000.0;
+pub const U_I64_BIG: f64 = 1_500_000_000_000_000_000.0;
 
 impl Judge<'_> {
     /// compare one output vector with its expectations
@@ -101,6 +142,8 @@ impl Judge<'_> {
                     (_, Obs::Null) => Err(format!("got null, want a value ({e:?})")),
                     _ => Ok(0.0),
                 }
+            } else if let Some(un) = self.unit {
+                satisfies_unit(e, g.obs(), un, U::NULL_AS_ZERO)
             } else {
                 check_elem(e, g)
             };
@@ -123,7 +166,8 @@ fn spy_faults(fname: &str, key: &str, cell: &str, j: &mut Judge, case: &Value) {
 }
 
 /// Everything one behaviour is replayed into.
-pub fn replay_beh(b: &Beh, kernels: &[String], j: &mut Judge, full: bool) {
+pub fn replay_beh(b: &Beh, kernels: &[String], j: &mut Judge, full: bool, laws: Option<&Laws1>) {
+    let maxabs = max_abs(&b.xs);
     let (w, mp) = (b.w, b.mp);
     let xs = &b.xs;
     let nullfree = !has_null(xs);
@@ -181,6 +225,41 @@ pub fn replay_beh(b: &Beh, kernels: &[String], j: &mut Judge, full: bool) {
             star_t!(i32);
             if full {
                 star_t!(i64);
+            }
+        }
+
+        // ---- the same series in other units of measurement (Laws1.tla) ----
+        if let Some(l) = laws {
+            macro_rules! ustar {
+                ($T:ty, $U:ty, $u:expr, $to:expr) => {{
+                    if let Some(un) = l.unit(k, $u, maxabs) {
+                        if <$T as InElem>::fits(maxabs, $u) {
+                            let v: Vec<$T> = enc_vec_unit(xs, $u);
+                            let got = run_valid::<$T, _, $U, Vec<$U>>(k, &v, w, mp, $to);
+                            j.unit = Some(un);
+                            let cell = format!("Vec<{}>->Vec<{}>/{}@unit={:e}", <$T as InElem>::NAME, <$U as OutElem>::NAME, if $to { "to" } else { "ret" }, $u);
+                            j.compare(fname, &key, &cell, &got, exps, case);
+                            j.unit = None;
+                        }
+                    }
+                }};
+            }
+            // a sum is accumulated in the element type by design: an integer series in a unit
+            // that makes window sums leave the type is outside what ts_vsum can represent
+            let int_ok = *k != "sum";
+            ustar!(f64, f64, U_F64_BIG, false);
+            ustar!(f64, f64, U_F64_SMALL, false);
+            ustar!(f64, Option<f64>, U_F64_BIG, true);
+            ustar!(Option<f64>, f64, U_F64_SMALL, false);
+            ustar!(f32, f64, U_F32_BIG, false);
+            ustar!(f32, f64, U_F32_SMALL, false);
+            if int_ok {
+                ustar!(Option<i32>, f64, U_I32_BIG, false);
+                ustar!(Option<i64>, f64, U_I64_BIG, false);
+                if nullfree {
+                    ustar!(i32, f64, U_I32_BIG, false);
+                    ustar!(i64, Option<f64>, U_I64_BIG, false);
+                }
             }
         }
 
@@ -256,6 +335,29 @@ pub fn replay_beh(b: &Beh, kernels: &[String], j: &mut Judge, full: bool) {
                 pstar!(i64, f64);
                 pstar!(i32, i32);
                 pstar!(i64, Option<f64>);
+            }
+            if let Some(l) = laws {
+                macro_rules! upstar {
+                    ($T:ty, $U:ty, $u:expr) => {{
+                        if let Some(un) = l.unit(k, $u, maxabs) {
+                            if <$T as InElem>::fits(maxabs, $u) {
+                                let v: Vec<$T> = enc_vec_unit(xs, $u);
+                                let got = run_plain::<$T, _, $U, Vec<$U>>(k, &v, w, mp, false);
+                                j.unit = Some(un);
+                                let cell = format!("Vec<{}>->Vec<{}>/ret@unit={:e}", <$T as InElem>::NAME, <$U as OutElem>::NAME, $u);
+                                j.compare(fname, &key, &cell, &got, exps, case);
+                                j.unit = None;
+                            }
+                        }
+                    }};
+                }
+                upstar!(f64, f64, U_F64_BIG);
+                upstar!(f64, f64, U_F64_SMALL);
+                upstar!(f32, f64, U_F32_BIG);
+                if *k != "sum" {
+                    upstar!(i32, f64, U_I32_BIG);
+                    upstar!(i64, f64, U_I64_BIG);
+                }
             }
             let v: Vec<f64> = enc_vec(xs);
             let got = run_plain::<f64, _, f64, Vec<f64>>(k, &v, w, mp, true);
@@ -337,6 +439,7 @@ pub fn replay(args: &Args) {
     let mut rep = Report::new(args.get("prop").unwrap_or("C01"), args.req("out"));
     let full = args.flag("full");
     let mode = if args.get("mode") == Some("mask") { Mode::Mask } else { Mode::Full };
+    let laws = args.get("laws").map(Laws1::load);
     let kernels: Vec<String> = args.get("kernels").map(|s| s.split(',').map(|x| x.to_string()).collect()).unwrap_or_default();
     for v in &cases {
         if get_str(v, "op") != "roll1" {
@@ -347,8 +450,8 @@ pub fn replay(args: &Args) {
         if rep.cases % 997 == 1 {
             rep.sample(v.clone());
         }
-        let mut j = Judge { rep: &mut rep, mode };
-        replay_beh(&b, &kernels, &mut j, full);
+        let mut j = Judge { rep: &mut rep, mode, unit: None };
+        replay_beh(&b, &kernels, &mut j, full, laws.as_ref());
     }
     rep.finish();
 }
